@@ -45,6 +45,8 @@ func padVal(conn string, k, n int) []byte {
 
 var weirdNames = []string{"FOO\r\nBAR", "KEYS", "MULTI", "subscribe", "CLUSTER", "flushall", "BLPOP", "no\x00such", "it's", "say\"hi\"", "X\nY", "Z\r", "\r\n", "EVALSHA", "NOSUCHCMD", "get\r\n+OK"}
 
+var weirdArgs = []string{"7\r\n+OK", "\r\n", "x\ny", "-1", "", "18446744073709551616", "1\r", "abc\r\n-ERR x\r\n", "0 \r\n$-1", "nan"}
+
 // genC01Conn builds one connection's script over its private keys.
 func genC01Conn(r *simhook.Rand, name string, nreq int, keys []string) ConnScript {
 	cs := ConnScript{Name: name}
@@ -111,6 +113,22 @@ func genC01Conn(r *simhook.Rand, name string, nreq int, keys []string) ConnScrip
 				req.Args = world.Bins([]string{"GET", "MGET", "MSET", "DEL", "SET"}[r.Intn(5)])
 			}
 		case x < 92: // unsupported names, including hostile ones
+			if r.Chance(2, 5) {
+				// a well-known command with a hostile argument (arguments that the proxy parses itself, or that
+				// an error text may echo)
+				h := weirdArgs[r.Intn(len(weirdArgs))]
+				switch r.Intn(4) {
+				case 0:
+					req.Args = world.Bins("SCAN", h)
+				case 1:
+					req.Args = world.Bins("SCAN", h, "MATCH", "x*", "COUNT", "10")
+				case 2:
+					req.Args = world.Bins("SELECT", h)
+				default:
+					req.Args = world.Bins("PING", h)
+				}
+				break
+			}
 			nm := weirdNames[r.Intn(len(weirdNames))]
 			req.Args = world.Bins(nm)
 			for i := 0; i < r.Intn(3); i++ {
